@@ -645,6 +645,14 @@ def c17_9(ctx):
     cfg = cfg_of(fn)
     loops = [lp for lp in cfg.loops.values() if isinstance(lp.stmt, ast.For) and "headers" in ast.unparse(lp.stmt.iter)]
     if not loops:
+        # the verdict is also decided by evaluation over messages with a header without work / a broken link (C17.19); this reading of the loop is the fallback
+        cells = c17_19(ctx)
+        if cells and not any(r.status == "error" for r in cells):
+            good = all(r.status == "ok" for r in cells)
+            if good:
+                return [ctx.ok(spec, "every header must pass check_pow(): decided by the verdict cells (C17.19)", fn, mod, key="pow-each"),
+                        ctx.ok(spec, "each header's prev_block must equal the hash of the previous header: decided by the verdict cells (C17.19)", fn, mod, key="linkage")]
+            return [ctx.bad(spec, "is_valid accepts a message that fails proof of work or linkage (see C17.19)", fn, mod, key="pow-each")]
         raise AnalysisError("is_valid: loop over headers not found")
     lp = loops[0]
     out = []
